@@ -237,6 +237,9 @@ def f3_rule_menu():
         rule(A("p", X), [[True, A("n", X)], [False, A("q", X)]]),
         rule(A("p", X), [[True, A("e", X, Y)], [False, A("p", Y)]]),
         rule(A("r"), [[True, A("n", "c")], [False, A("r")]]),
+        # the same predicate called with a repeated variable and then with distinct variables
+        rule(A("s", X, Y), [[True, A("e", Z, Z)], [True, A("e", X, Y)]]),
+        rule(A("r"), [[True, A("t", Z, Z)], [True, A("t", X, Y)]]),
     ]
     return m
 
